@@ -48,7 +48,7 @@ def _units(draw):
         if a["type"] in ("plant", "chp"):
             if draw(st.booleans()):
                 a["ramp"] = draw(st.sampled_from([1.0, 2.0, 8.0])) / cxd
-            if draw(st.booleans()):
+            if draw(st.booleans()) and not a.get("time_already_running"):
                 a["min_downtime"] = 1.5 * cxd
                 a["time_already_off"] = 0.5 * cxd
     return spec
